@@ -278,14 +278,18 @@ std::string Mem::verify_one(const void *p, bool *is_canary) const
 
 // ---------------------------------------------------------------- fault handler
 bool (*g_fault_filter)(uintptr_t addr, bool write) = nullptr;
+void (*g_step_hang_hook)() = nullptr;
 
 static void on_fault(int sig, siginfo_t *si, void *uc_)
 {
         ucontext_t *uc = (ucontext_t *) uc_;
         if (sig == SIGVTALRM) {
-                // CPU-time limit of a library call (Env::call_cpu_limit_s): only meaningful while a call is in progress
-                if (!g_fault_armed)
+                // CPU-time limit of a library call (Env::call_cpu_limit_s), or of a coroutine task's step (g_step_hang_hook)
+                if (!g_fault_armed) {
+                        if (g_step_hang_hook)
+                                g_step_hang_hook(); // switches back to the scheduler; this context is abandoned
                         return;
+                }
                 g_fault.valid = true;
                 g_fault.addr = 0;
                 g_fault.write = false;
